@@ -178,6 +178,7 @@ inline TopoReport CheckManifold(const manifold::Manifold& m) {
   if (std::abs(g.tolerance) > 1e30) return r;
   manifold::MeshGL g32 = m.GetMeshGL();
   TopoReport r32 = CheckTopology(g32);
+  if (!r32.ok && getenv("VERIF_DEBUG")) { double mx = 0; for (double x : g.vertProperties) mx = std::max(mx, std::abs(x)); fprintf(stderr, "DEBUG32 max|64-bit value|=%g tol64=%g tol32=%g numProp=%d nv64=%zu nv32=%zu\n", mx, double(g.tolerance), double(g32.tolerance), int(g.numProp), g.vertProperties.size() / g.numProp, g32.vertProperties.size() / g32.numProp); }
   if (!r32.ok) { r32.sig += "(32bit)"; return r32; }
   if (r32.numVert != r.numVert || r32.numTri != r.numTri)
     r.fail("topo:32-64-mismatch", "MeshGL and MeshGL64 exports differ in counts");
